@@ -131,3 +131,7 @@ def check(run):
     # c17_authenticate_never_mutates; oracle and replay shared with C17)
     import c17cer
     run.cov["u2f_ceremonies"] = {k: v for k, v in c17cer.check_ceremony(run, tag="C07-u2f").items() if k not in ("sample", "rule")}
+    # a shared store whose lock is briefly held by another handle while the ceremony reaches a store call (C19's deterministic
+    # executor): the ceremony must wait - never answer as if nothing were stored, never skip a write
+    import c19
+    run.cov["held_lock"] = c19.check_held_locks(run, ("C07",))
